@@ -88,6 +88,8 @@ def workflows():
     add('xreplica-agg-slow', [comp('S', wa={'replicate': 2}), comp('X'), comp('Agg', ['stage0.S:ref'], stage=1, wa={'aggregate': True})],
         {'stage0.S0': m(replica_of='S'), 'stage0.S1': m(replica_of='S'), 'stage0.X': m(),
          'stage1.Agg': m(1, ['stage0.S0', 'stage0.S1'], aggregate=True)})
+    add('restart3', [comp('Z'), comp('P', stage=1), comp('Q', stage=1), comp('C', ['stage1.P:ref', 'stage1.Q:ref'], stage=2)],
+        {'stage0.Z': m(), 'stage1.P': m(1), 'stage1.Q': m(1), 'stage2.C': m(2, ['stage1.P', 'stage1.Q'])})
     add('agg-plain', [comp('P'), comp('Agg', ['P:ref'], wa={'aggregate': True}), comp('T', ['Agg:ref'])],
         {'stage0.P': m(), 'stage0.Agg': m(producers=['stage0.P'], aggregate=True), 'stage0.T': m(producers=['stage0.Agg'])})
     # DoWhile: S -> looped component L (three iterations 0..2: the condition file says True, True, False) -> C consumes the loop
@@ -124,7 +126,7 @@ def base_name(ref, meta):
 
 
 # ---------------------------------------------------------------------------------------------- reference model
-def reference_outcome(meta, script, attrs, stages_run, loop_nodes=None):
+def reference_outcome(meta, script, attrs, stages_run, loop_nodes=None, start=0):
     """Independent model of the documented rules (written from the property statement).
 
     script: node -> list of reason labels, consumed one per task execution (last repeats).
@@ -137,6 +139,9 @@ def reference_outcome(meta, script, attrs, stages_run, loop_nodes=None):
     acceptable = {}
     loop = (loop_nodes or [])
     for n in order:
+        if meta[n]['stage'] < start:
+            state[n] = 'finished'   # skipped stage of a restarted experiment
+            continue
         if meta[n]['stage'] not in stages_run:
             continue
         if n in loop:
@@ -264,6 +269,11 @@ def make_scenarios(tier):
     out.append({'wf': 'fanin', 'labels': {'stage0.P1': 'KS'}, 'dur': {'stage0.P2': 40.0}})
     # a restartable exit of X (staged in a later batch than Y) lands while the unrecoverable exit of Y is being handled
     out.append({'wf': 'fanin', 'labels': {'stage0.P1': 'KF', 'stage0.P2': 'RS'}, 'dur': {'stage0.P2': 25.0003}})
+    # the experiment is (re)started from a later stage: the components of the skipped stages count as finished
+    for lab in ({}, {'stage1.P': 'KS'}, {'stage1.P': 'KF'}, {'stage1.Q': 'KS'}, {'stage1.P': 'RS'}):
+        for dur in ({}, {'stage1.Q': 40.0}, {'stage1.P': 40.0}):
+            out.append({'wf': 'restart3', 'labels': lab, 'dur': dur, 'start': 1})
+    out.append({'wf': 'xstage3', 'labels': {}, 'dur': {}, 'start': 1})
     # a producer fails while siblings of its stage are still running: the stage drains over several scheduler passes
     for sl in ('KF', 'KS'):
         out.append({'wf': 'xreplica-agg-slow', 'labels': {'stage0.S0': sl}, 'dur': {'stage0.S1': 40.0, 'stage0.X': 40.0}})
@@ -307,10 +317,10 @@ def build(scn):
         seq = mscript.get(n, ['Success'])
         d = scn['dur'].get(n, 0.0)
         script[n] = [['LaunchOSError' if r == 'SubmissionFailed' else r.rstrip('!'), d] for r in seq]
-    stages = sorted({meta[n]['stage'] for n in meta})
+    stages = sorted({meta[n]['stage'] for n in meta if meta[n]['stage'] >= scn.get('start', 0)})
     ex = DOWHILE_EXTRAS.get(scn['wf'], {})
-    return Scenario(doc, script=script, name=scn['wf'], extra_files=ex.get('extra_files'), exit_files=ex.get('exit_files')), \
-        meta, mscript, attrs, stages
+    return Scenario(doc, script=script, name=scn['wf'], extra_files=ex.get('extra_files'), exit_files=ex.get('exit_files'),
+                    stages=(stages if scn.get('start') else None)), meta, mscript, attrs, stages
 
 
 # ---------------------------------------------------------------------------------------------- judges
@@ -336,7 +346,10 @@ def snapshot_for_launch(job, task=None):
 def judge_c01(x, meta, loop_nodes=None):
     """Invariant monitor over the event log. Returns list of (why, sig)."""
     bad = []
+    first_final = {}   # the final state a component was first given (a final state must not change afterwards)
     for e in x.events:
+        if e['kind'] == 'comp-finish' and e['final'] in FINAL:
+            first_final.setdefault(e['ref'], e['final'])
         if e['kind'] not in ('launch', 'comp-run'):
             continue
         ref = e['ref']
@@ -346,6 +359,8 @@ def judge_c01(x, meta, loop_nodes=None):
         for p, st, run_called in (e.get('snap') or []):
             if p not in meta:
                 continue
+            if st in FINAL and first_final.get(p, st) != st:
+                st = first_final[p]
             same_stage = meta[p]['stage'] == me['stage']
             what = 'task of %s launched' % ref if e['kind'] == 'launch' else '%s.run() called' % ref
             if me['repeat'] and same_stage:
@@ -363,7 +378,7 @@ def judge_c01(x, meta, loop_nodes=None):
     return bad
 
 
-def judge_c02(x, meta, mscript, attrs, stages, loop_nodes=None):
+def judge_c02(x, meta, mscript, attrs, stages, loop_nodes=None, start=0):
     bad = []
     ret = x.result.get('ret')
     if ret != 'done':
@@ -372,7 +387,7 @@ def judge_c02(x, meta, mscript, attrs, stages, loop_nodes=None):
         return bad
     ran = x.result.get('stages', [])
     stages_run = [s for s, _ in ran]
-    acceptable, unrecoverable, failed_nodes = reference_outcome(meta, mscript, attrs, set(stages_run), loop_nodes)
+    acceptable, unrecoverable, failed_nodes = reference_outcome(meta, mscript, attrs, set(stages_run), loop_nodes, start)
     # exactly one final state for every component of the stages that ran
     for n in meta:
         if meta[n]['stage'] not in stages_run:
@@ -386,6 +401,10 @@ def judge_c02(x, meta, mscript, attrs, stages, loop_nodes=None):
         if st not in FINAL:
             bad.append(('after run() returned, %s is in non-final state %r' % (n, st), 'C02:non-final:%s' % st))
             continue
+        given = [e['final'] for e in x.events if e['kind'] == 'comp-finish' and e['ref'] == n and e['final'] in FINAL]
+        if given and given[0] != st:
+            bad.append(('%s was given the final state %s and ended in %s: more than one final state' % (n, given[0], st),
+                        'C02:final-state-changed:%s->%s' % (given[0], st)))
     if bad:
         return bad
     if not unrecoverable:
@@ -458,7 +477,7 @@ def run_one(col, which, scn, prefix, remaining, boundary_only=False):
         col.state(fp)
     if x.errors:
         col.count('executions_with_activity_exceptions')
-    bad = judge_c01(x, meta, loop_nodes) if which == 'C01' else judge_c02(x, meta, mscript, attrs, stages, loop_nodes)
+    bad = judge_c01(x, meta, loop_nodes) if which == 'C01' else judge_c02(x, meta, mscript, attrs, stages, loop_nodes, scn.get('start', 0))
     outcome = (scn['wf'], x.result.get('ret'), tuple(sorted((n, f.get('state')) for n, f in x.final.items())),
                tuple(map(tuple, x.result.get('stages', []))))
     col.outcome('%s:%s' % (scn['wf'], case_id(outcome)))
